@@ -27,7 +27,7 @@ const prop = "C13"
 func TestMain(m *testing.M) {
 	logger.Config{Production: true, DefaultLevel: "fatal", DisableStdErr: true}.ApplyGlobal()
 	// native fuzz workers: the driver hands a directory, every process writes its own file
-	if d := os.Getenv("VERIF_STATS_DIR"); d != "" && os.Getenv("VERIF_STATS") == "" {
+	if d := os.Getenv("VERIF_STATS_DIR"); d != "" { // (workers inherit the coordinator's environment: always re-derive)
 		os.Setenv("VERIF_STATS", filepath.Join(d, "stats-"+strconv.Itoa(os.Getpid())+".json"))
 	}
 	vstat.Main(m, prop)
@@ -43,9 +43,11 @@ type Case struct {
 	//   bytes      every byte x 3 bit patterns and every truncation, without and with recomputed id
 	//   outer-ops  every single-field edit of the wrapper, without and with recomputed id
 	//   inner-ops  every single-field edit of the signed content: stale signature (without / with
-	//              recomputed id) and re-signed by the owner
+	//              recomputed id), re-signed by the owner, and as a compound forgery (stale
+	//              signature, every other reference repaired) with its validly signed control
 	//   ids        every character of the three ids x edit variants, all suffix edits, all blanks
-	//   combine    all proper subsets of parts from B, all foreign ids, all targeted re-signed edits
+	//   combine    all proper subsets of parts from B, all foreign ids, all targeted re-signed edits,
+	//              identity-signature / master-key forgeries
 	Sweep string `json:"sweep,omitempty"`
 	Part  int    `json:"part"`
 	Muts  []Mut  `json:"muts,omitempty"`
@@ -80,7 +82,9 @@ func sweepMuts(A *space, c Case) []Mut {
 			out = append(out,
 				Mut{Kind: "inner-op", Part: p, Op: op},
 				Mut{Kind: "inner-op", Part: p, Op: op, Recompute: true},
-				Mut{Kind: "inner-op", Part: p, Op: op, Resign: true})
+				Mut{Kind: "inner-op", Part: p, Op: op, Resign: true},
+				Mut{Kind: "forgery", Part: p, Op: op},
+				Mut{Kind: "forgery", Part: p, Op: op, Resign: true})
 		}
 	case "ids":
 		for sub, s := range []string{A.cid, "", A.parts[pAcl].Id, A.parts[pSet].Id, A.parts[pHdr].Id} {
@@ -113,6 +117,10 @@ func sweepMuts(A *space, c Case) []Mut {
 		for sub := 0; sub < nSemantic; sub++ {
 			out = append(out, Mut{Kind: "semantic", Sub: sub})
 		}
+		for pos := 0; pos < 64; pos += 9 {
+			out = append(out, Mut{Kind: "forgery", Sub: 1, Pos: pos})
+		}
+		out = append(out, Mut{Kind: "forgery", Sub: 2})
 	}
 	return out
 }
@@ -198,6 +206,9 @@ func checkMutant(A, B *space, m Mut, mt mutant) error {
 			switch merr := modelConsistent(mt.parts); {
 			case merr == nil:
 				classes = append(classes, "consistent-variant-accepted")
+				if m.Kind == "forgery" {
+					classes = append(classes, "forgery-control-accepted")
+				}
 			case unwrapIs(merr, errUnparsed):
 				// the harness parser is stricter than protobuf (no groups): fall back to the
 				// generated decoder for the one question "same signed content and signature?"
@@ -219,7 +230,6 @@ func checkMutant(A, B *space, m Mut, mt mutant) error {
 			classes = append(classes, "unparseable-variant-rejected")
 		} else {
 			classes = append(classes, "consistent-variant-rejected")
-			vstat.Count("consistent-variant-rejected: "+m.Kind+" "+partNames[mutate.Mod(m.Part, 3)]+" "+m.Op.Kind, 1)
 		}
 	}
 	// second entry point: the header validated together with the presented roots
@@ -407,7 +417,7 @@ func genCtor(rt *rapid.T, label string) Ctor {
 	}
 }
 
-var mutKinds = []string{"byte", "byte", "trunc", "outer-op", "outer-op", "inner-op", "inner-op", "inner-op", "id-edit", "blank", "splice", "id-swap", "semantic", "semantic"}
+var mutKinds = []string{"byte", "byte", "trunc", "outer-op", "outer-op", "inner-op", "inner-op", "inner-op", "id-edit", "blank", "splice", "id-swap", "semantic", "semantic", "forgery", "forgery"}
 
 func genMut(rt *rapid.T) Mut {
 	return Mut{
